@@ -37,6 +37,10 @@ def build_scenario_parts(rng, nvars, opes=False, script=False, errors=False):
         if len(pool) < 14:
             pool = list(range(1, 39))
         ct = [slots[2 * i], slots[2 * i + 1]]
+        if i == 0:
+            # three components: the first one is switched off (cvcflags) for part of the run, so that the list of
+            # components and the list of active components differ
+            ct.append(rng.choice(["distance", "angle", "gyration", "distanceZ"]))
         extra = ["width 1.0", "lowerBoundary -50", "upperBoundary 50"]
         # two variables follow their own, different, coarse time steps: the set of active work items
         # changes from step to step while its size often stays the same
@@ -71,7 +75,11 @@ def scenario(sysm, cfg, frames, smp, prefix, script):
     if script:
         s += "forcecb v0 0.125\n"
     s += "module\nprefix %s\nconfig <<EOC\n%sEOC\ninit\n" % (prefix, cfg)
-    for f in frames:
+    for k, f in enumerate(frames):
+        if k == 4:
+            s += 'script ["cv","colvar","v0","cvcflags","0 1 1"]\n'
+        if k == 9:
+            s += 'script ["cv","colvar","v0","cvcflags","1 1 1"]\n'
         s += corpus.pos_line(f) + "\nstep\n"
     s += "savestr\nendrun\n"
     return s
